@@ -310,6 +310,31 @@ theorem pushBack_good [Inhabited α] {s : State α} (I : Inv s) {h : Nat} (hn : 
   rw [if_neg (by rw [hs]; omega)]
   exact G.trans (writeCell_good G.inv (by rw [G.frame.1]; exact hn) so (by rw [hs]; omega) v)
 
+/-- with the invariant, `push_back` of the own cell `i` is `push_back` of the value of that cell -/
+theorem pushBackSelf_eq [Inhabited α] {s : State α} (I : Inv s) {h : Nat} (hn : h < s.n) {i : Nat} (hi : i < (s.hs h).size) :
+    ∃ v, (contents s h)[i]? = some v ∧ pushBackSelf s h i = pushBack s h v := by
+  have hp : (s.hs h).psz ≠ 0 := size_pos_psz I hn (by omega)
+  obtain ⟨c, b, h1, h2, h3, h4, h5, h6⟩ := (I.wf h hn).2 hp
+  have lt : i < (s.ddata b).length := by omega
+  refine ⟨(s.ddata b)[i], ?_, ?_⟩
+  · unfold contents; rw [h2]; dsimp only
+    rw [List.getElem?_take_of_lt hi, List.getElem?_eq_getElem lt]
+  · unfold pushBackSelf; dsimp only
+    rw [if_pos hi, h2]
+    unfold readCells
+    simp only [Nat.add_one_ne_zero, ↓reduceIte, h4, true_and]
+    rw [if_pos (by omega)]
+    dsimp only
+    rw [List.getElem?_take_of_lt (Nat.lt_succ_self i), List.getElem?_eq_getElem lt]
+
+theorem pushBackSelf_good [Inhabited α] {s : State α} (I : Inv s) {h : Nat} (hn : h < s.n) (i : Nat) :
+    Good s (pushBackSelf s h i) h := by
+  by_cases hi : i < (s.hs h).size
+  · obtain ⟨v, _, e⟩ := pushBackSelf_eq I hn hi
+    rw [e]; exact pushBack_good I hn v
+  · have : pushBackSelf s h i = s := by unfold pushBackSelf; dsimp only; rw [if_neg hi]
+    rw [this]; exact good_self I h
+
 theorem reserve_good [Inhabited α] {s : State α} (I : Inv s) {h : Nat} (hn : h < s.n) (sz : Nat) :
     Good s (reserve s h sz) h ∧ ((reserve s h sz).hs h).size = 0 := by
   unfold reserve; dsimp only
@@ -371,6 +396,7 @@ theorem stepCore_inv [Inhabited α] {s : State α} (I : Inv s) (op : Op α) (hb'
   | resize h sz => have G := (reallocate_good I (hb' h (by simp [Op.handles])) sz).1; exact ⟨G.inv, G.frame.1⟩
   | reserve h sz => have G := (reserve_good I (hb' h (by simp [Op.handles])) sz).1; exact ⟨G.inv, G.frame.1⟩
   | pushBack h v => have G := pushBack_good I (hb' h (by simp [Op.handles])) v; exact ⟨G.inv, G.frame.1⟩
+  | pushBackSelf h i => have G := pushBackSelf_good I (hb' h (by simp [Op.handles])) i; exact ⟨G.inv, G.frame.1⟩
   | write h i v => have G := write_good I (hb' h (by simp [Op.handles])) i v; exact ⟨G.1, G.2.1⟩
   | copy h g => have G := copy_good I (hb' h (by simp [Op.handles])) (hb' g (by simp [Op.handles])); exact ⟨G.inv, G.frame.1⟩
   | logcopy h g => have G := logcopy_good I (hb' h (by simp [Op.handles])) (hb' g (by simp [Op.handles])); exact ⟨G.inv, G.frame.1⟩
